@@ -1,9 +1,11 @@
 pub mod c01;
 pub mod c03;
+pub mod c04;
+pub mod c05;
 pub mod c18;
 
 use crate::run::Prop;
 
 pub fn all() -> Vec<Prop> {
-  vec![c01::prop(), c03::prop(), c18::prop()]
+  vec![c01::prop(), c03::prop(), c04::prop(), c05::prop(), c18::prop()]
 }
